@@ -55,6 +55,8 @@ fn logger() -> slog::Logger {
 
 static QUIET: AtomicBool = AtomicBool::new(false);
 static DB_COUNTER: AtomicU64 = AtomicU64::new(0);
+/// imports classified `x` because a chain presented by the node carried a transaction twice
+static TX_TWICE: AtomicU64 = AtomicU64::new(0);
 
 // ------------------------------------------------------------------------------------------ blocks
 
@@ -367,6 +369,8 @@ struct Node {
     importer: Arc<CardanoChainDataImporter>,
     sim: Arc<Mutex<Sim>>,
     max_per_poll: usize,
+    /// the harness's own read-only connection to the file, for the rows of `cardano_tx` itself
+    raw: Mutex<Option<mithril_persistence::sqlite::SqliteConnection>>,
 }
 
 /// The Cardano transactions database opened the way the signer and the aggregator open it
@@ -382,9 +386,8 @@ fn open_repo(path: &Path) -> Arc<SignerCardanoChainDataRepository> {
 }
 
 /// the rows of the table `cardano_tx` itself (no join) that name a block `cardano_block` does not hold
-fn raw_orphans(db_path: &Path) -> Vec<String> {
+fn raw_orphans(conn: &mithril_persistence::sqlite::SqliteConnection) -> Vec<String> {
     use mithril_persistence::sqlite::ConnectionExtensions;
-    let conn = ConnectionBuilder::open_file(db_path).build_without_migrations().unwrap();
     let cell: String = conn
         .query_single_cell(
             "select coalesce(group_concat(x, ','), '') from (select transaction_hash || '@' || block_hash as x from cardano_tx \
@@ -404,7 +407,7 @@ impl Node {
         let db_path = scratch.join(format!("db-{}.sqlite3", DB_COUNTER.fetch_add(1, Ordering::SeqCst)));
         std::fs::copy(template, &db_path).unwrap();
         let (repo, store, importer) = Node::wire(&db_path, &sim, max_per_poll);
-        Node { rt, db_path, repo, store, importer, sim, max_per_poll }
+        Node { rt, db_path, repo, store, importer, sim, max_per_poll, raw: Mutex::new(None) }
     }
     fn wire(db_path: &Path, sim: &Arc<Mutex<Sim>>, max_per_poll: usize) -> (Arc<SignerCardanoChainDataRepository>, Arc<Recorder>, Arc<CardanoChainDataImporter>) {
         let repo = open_repo(db_path);
@@ -444,8 +447,17 @@ impl Node {
         self.rt.block_on(async move { ChainDataPruner::prune(&*repo, BlockNumber(keep)).await }).unwrap();
     }
     fn dump(&self) -> Dump {
+        let mut d = self.dump_joined();
+        let mut raw = self.raw.lock().unwrap();
+        if raw.is_none() {
+            *raw = Some(ConnectionBuilder::open_file(&self.db_path).build_without_migrations().unwrap());
+        }
+        d.orphans = raw_orphans(raw.as_ref().unwrap());
+        d
+    }
+    /// what the repository's read queries give (blocks, the join with the transactions, both root tables)
+    fn dump_joined(&self) -> Dump {
         let repo = self.repo.clone();
-        let db_path = self.db_path.clone();
         self.rt.block_on(async move {
             let mut d = Dump::default();
             let id_of = |h: &str| u32::from_str_radix(h, 16).unwrap_or(u32::MAX);
@@ -457,7 +469,6 @@ impl Node {
                 repo.get_all_transactions().await.unwrap().into_iter().map(|t| (*t.block_number, t.transaction_hash, id_of(&t.block_hash))).collect();
             txs.sort();
             d.txs = txs.into_iter().map(|t| (t.1, t.0, t.2)).collect();
-            d.orphans = raw_orphans(&db_path);
             for r in repo.get_all_block_range_root().unwrap() {
                 d.roots.push((*r.range.start, *r.range.end, r.merkle_root.to_hex()));
             }
@@ -556,11 +567,13 @@ fn classify(
     let mut v: Vec<(u32, u64, u64)> = s0.to_vec();
     let mut lp = false;
     // no transaction twice on a chain the node presents
-    let fresh = |v: &[(u32, u64, u64)]| -> bool {
-        let mut seen: BTreeSet<u32> = BTreeSet::new();
-        v.iter().all(|x| known.get(&x.0).map(|b| b.txs.iter().all(|t| seen.insert(*t))).unwrap_or(true))
+    let txs_of = |v: &[(u32, u64, u64)]| -> (std::collections::HashSet<u32>, bool) {
+        let mut seen = std::collections::HashSet::new();
+        let ok = v.iter().all(|x| known.get(&x.0).map(|b| b.txs.iter().all(|t| seen.insert(*t))).unwrap_or(true));
+        (seen, ok)
     };
-    let mut tx_twice = !fresh(&v);
+    let (mut on_chain, ok) = txs_of(&v);
+    let mut tx_twice = !ok;
     for r in replies {
         match r {
             Reply::Nothing => {}
@@ -569,7 +582,7 @@ fn classify(
                     return 'x';
                 }
                 v.push((b.id, b.number, b.slot));
-                if !tx_twice && !fresh(&v) {
+                if !tx_twice && !b.txs.iter().all(|t| on_chain.insert(*t)) {
                     tx_twice = true;
                 }
                 if b.number <= target {
@@ -587,11 +600,16 @@ fn classify(
                     }
                     lp = true;
                 }
+                let n = v.len();
                 v.retain(|x| x.2 <= *s);
+                if v.len() != n && !tx_twice {
+                    on_chain = txs_of(&v).0;
+                }
             }
         }
     }
     if tx_twice {
+        TX_TWICE.fetch_add(1, Ordering::SeqCst);
         return 'x';
     }
     let k = (target + 1) / 15;
@@ -640,7 +658,7 @@ impl Env {
         let sim = Arc::new(Mutex::new(Sim::new(chain.to_vec(), false)));
         let node = Node::new(self.rt.clone(), &self.scratch, &self.template, sim, 100);
         let _ = node.import(target);
-        (node.dump(), node)
+        (node.dump_joined(), node)
     }
 }
 
@@ -650,6 +668,8 @@ struct SPlan {
     /// compare with a fresh import after every import (else: a sample + the last)
     every: bool,
     beacons: usize,
+    /// the signable roots only after the last import of the history
+    beacons_last_only: bool,
 }
 
 fn run_history(env: &Env, h: &History, rng: &mut Rng, plan: SPlan) -> Outcome {
@@ -884,7 +904,7 @@ fn run_history(env: &Env, h: &History, rng: &mut Rng, plan: SPlan) -> Outcome {
                 // (2) signable roots do not depend on how far beyond the beacon the node imported
                 let hi = dump.blocks.iter().map(|b| b.1).max().unwrap_or(0).min(*target);
                 let mut beacons: Vec<u64> = vec![];
-                if plan.beacons > 0 {
+                if plan.beacons > 0 && (!plan.beacons_last_only || import_idx == n_imports) {
                     // any beacon; an aligned one (last block of a range: both builders); one above the last stored root
                     beacons.push(rng.range(0, hi));
                     if hi >= 14 {
@@ -1571,7 +1591,7 @@ fn main() {
     let template = scratch.join("template.sqlite3");
     drop(open_repo(&template));
     let env = Env { rt: rt.clone(), scratch: scratch.clone(), template };
-    let full = SPlan { every: true, beacons: 0 };
+    let full = SPlan { every: true, beacons: 0, beacons_last_only: false };
 
     let emit = |sink: &mut Sink, tag: &str, o: &Outcome, case: &str, only: Option<usize>| {
         let idx = sink.case(tag, &o.req, &o.trace);
@@ -1618,12 +1638,12 @@ fn main() {
     {
         // not a finding: the re-included transaction must be stored under its new block (an S failure here
         // is of the class `reincluded-transaction-lost`)
-        let o = run_history(&env, &w_reinclude(), &mut wr, SPlan { every: true, beacons: 3 });
+        let o = run_history(&env, &w_reinclude(), &mut wr, SPlan { every: true, beacons: 3, beacons_last_only: false });
         sink.note("w_reinclude", &format!("letters={} sfails={:?}", o.letters, o.sfails));
         emit(&mut sink, "corpus-reinclude", &o, "a transaction of an abandoned block included again in another block of the new fork", args.only);
     }
     {
-        let mut o = run_history(&env, &w_beacon_inside(), &mut wr, SPlan { every: true, beacons: 0 });
+        let mut o = run_history(&env, &w_beacon_inside(), &mut wr, SPlan { every: true, beacons: 0, beacons_last_only: false });
         // beacon 40 lies inside the stored range [30,45)
         let a = chain_of(1, 1..=50, |n| n * 10, 1);
         let sim = Arc::new(Mutex::new(Sim::new(a.clone(), false)));
@@ -1649,7 +1669,7 @@ fn main() {
             sink.skip();
             continue;
         }
-        let o = run_history(&env, &h, &mut wr, SPlan { every: true, beacons: 0 });
+        let o = run_history(&env, &h, &mut wr, SPlan { every: true, beacons: 0, beacons_last_only: false });
         for k in 0..5 {
             grid_branches[k] += o.branches[k];
         }
@@ -1667,7 +1687,7 @@ fn main() {
             sink.skip();
             continue;
         }
-        let o = run_history(&env, &h, &mut wr, SPlan { every: true, beacons: 3 });
+        let o = run_history(&env, &h, &mut wr, SPlan { every: true, beacons: 3, beacons_last_only: true });
         reinc.0 += o.reincluded;
         reinc.1 += o.s_checks;
         reinc.2 += o.s2_checks;
@@ -1681,7 +1701,7 @@ fn main() {
     sink.note("grid_reinclude", &format!("re-included transactions stored under a new block={} fresh-import comparisons={} signable-root comparisons={}", reinc.0, reinc.1, reinc.2));
 
     // ---- generated histories -------------------------------------------------------------------
-    let n = args.extra.get("n").and_then(|x| x.parse().ok()).unwrap_or(if args.thorough() { 9_000 } else { 900 });
+    let n = args.extra.get("n").and_then(|x| x.parse().ok()).unwrap_or(if args.thorough() { 9_000 } else { 800 });
     let mut letters: BTreeMap<char, u64> = BTreeMap::new();
     let (mut s1, mut s2, mut tainted) = (0u64, 0u64, 0u64);
     let (mut reincluded, mut reinc_hist) = (0u64, 0u64);
@@ -1703,7 +1723,7 @@ fn main() {
                 }
             }
         }
-        let plan = SPlan { every: i % 10 == 0, beacons: if i % 3 == 0 { 3 } else { 0 } };
+        let plan = SPlan { every: i % 10 == 0, beacons: if i % 3 == 0 { 3 } else { 0 }, beacons_last_only: false };
         let o = run_history(&env, &h, &mut r, plan);
         for c in o.letters.chars() {
             *letters.entry(c).or_insert(0) += 1;
@@ -1741,6 +1761,7 @@ fn main() {
         ),
     );
     sink.note("reincluded_transactions_seen_stored_under_a_new_block", &format!("{} in {} generated histories", reincluded, reinc_hist));
+    sink.note("imports_with_a_transaction_twice_on_one_chain", &TX_TWICE.load(Ordering::SeqCst).to_string());
     sink.note("S1_fresh_import_comparisons", &s1.to_string());
     sink.note("S2_signable_root_comparisons", &s2.to_string());
     sink.note("histories_with_a_classified_event", &tainted.to_string());
